@@ -244,6 +244,10 @@ def rules(ctx):
                          "%s writes `%s`: the derived model's counter is not self's counter" % (f_.qual, src(node)[:50]))
                 continue
             ok = kind == 'aug' and isinstance(detail[0], ast.Add) and (const_num(detail[1]) or 0) > 0
+            if not ok and kind == 'assign' and isinstance(detail, ast.BinOp) and isinstance(detail.op, ast.Add) and (
+                    (src(detail.left) == '%s.%s' % (obj, f) and (const_num(detail.right) or 0) > 0) or
+                    (src(detail.right) == '%s.%s' % (obj, f) and (const_num(detail.left) or 0) > 0)):
+                ok = True       # X.c = X.c + k
             if not ok and kind == 'assign' and isinstance(detail, ast.Call) and is_name(detail.func, 'max') and \
                     any(src(a_) == '%s.%s' % (obj, f) for a_ in detail.args):
                 ok = True       # X.c = max(X.c, ..): never decreases
@@ -258,7 +262,9 @@ def rules(ctx):
     for node, obj, f, kind, (k, v) in takes:
         blk = parent(enclosing_stmt(node))
         incs_ = [w for w in field_writes(bo.node, {'_next_label'})
-                 if w[3] == 'aug' and parent(enclosing_stmt(w[0])) is blk]
+                 if parent(enclosing_stmt(w[0])) is blk and (
+                     w[3] == 'aug' or (w[3] == 'assign' and isinstance(w[4], ast.BinOp) and isinstance(w[4].op, ast.Add)
+                                       and '%s._next_label' % sn in (src(w[4].left), src(w[4].right))))]
         ctx.inst('R14.8', bo, node, bool(incs_),
                  "label taken and counter advanced in the same block" if incs_ else
                  "label taken from _next_label without advancing it: two labels share an integer")
